@@ -442,6 +442,9 @@ def ordered_calls(expr_list):
 
     def visit(e, cond):
         if isinstance(e, ast.Lambda):
+            # the body may run (e.g. iter(lambda: f.read(n), b'')): its
+            # calls are conditional calls of the statement
+            visit(e.body, True)
             return
         if isinstance(e, ast.BoolOp):
             visit(e.values[0], cond)
